@@ -1162,7 +1162,15 @@ def hub_stream(ctx, RN, rng, quick):
 def wrapper_stream(ctx, RN, rng):
     """the public factories: SmallTestNetwork() against model and oracle like any other network,
     SmallComplexNetwork() through the complex oracle"""
-    net = quiet(RN.SmallTestNetwork)
+    try:
+        net = quiet(RN.SmallTestNetwork)
+        quiet(RN.SmallComplexNetwork)
+    except Exception as ex:  # noqa
+        ctx.fail({"kind": "wrapper", "factory": "SmallTestNetwork/SmallComplexNetwork",
+                  "error": type(ex).__name__},
+                 f"the public factories raise {type(ex).__name__}: {ex}",
+                 {"call": "ResNetwork.SmallTestNetwork(); ResNetwork.SmallComplexNetwork()"})
+        return
     A = [[int(v) for v in r] for r in np.asarray(net.adjacency).tolist()]
     res = [[Fr(int(v)) for v in r] for r in np.asarray(net.resistances).tolist()]
     n = len(A)
